@@ -733,7 +733,7 @@ func (d *draws) w(weights ...int) int {
 }
 
 var btRowKeys = []string{"a", "a\x00", "a\x00\x00", "ab", "b", "\x00", "\xff", "a\xff"}
-var btQuals = []string{"q", "", "q\x00", "r", "\xff"}
+var btQuals = []string{"q", "", "q\x00", "r", "\xff", "2q"} // with families f1/f12: f1+"2q" and f12+"q" concatenate alike
 var btValidTs = []int64{1000, 0, 2000, 3000, maxValidTs}
 var btInvalidTs = []int64{-2, -1000, 1, 1500, math.MaxInt64}
 
